@@ -260,7 +260,11 @@ def nextEvent (w : World) : Option World := Id.run do
     let w := { w with cmdQ := rest }
     if isOpen then
       let s := getPeer w p
-      let needsOpen := s.slot = some (.closed none)
+      -- `service.open_substream` is called in `Closed` unless a pending substream is reused
+      let needsOpen := match s.slot with
+        | some (.closed none) => true
+        | some (.closed (some x)) => !s.pending.contains x
+        | _ => false
       let (w, ok, sid) := if needsOpen then openAttempt w p else (w, false, w.nextSid)
       return some (act w p (.cmdOpen w.dial (w.known.contains p) ok sid))
     else
@@ -359,6 +363,14 @@ def wakeTasksOfPipe (w : World) (k : Nat) : World :=
   { w with taux := w.taux.map fun a =>
       match taskOf w a with
       | some t => if t.inPipe = k || ((t.inPipe = k || t.outPipe = k) && t.phase ≠ .running) then { a with woken := true } else a
+      | none => a }
+
+/-- `release` wakes only the close waker, which a task registers inside `close_connection` (a running task
+that never called `poll_shutdown` is not polled). -/
+def wakeClosingTasksOfPipe (w : World) (k : Nat) : World :=
+  { w with taux := w.taux.map fun a =>
+      match taskOf w a with
+      | some t => if (t.inPipe = k || t.outPipe = k) && t.phase ≠ .running then { a with woken := true } else a
       | none => a }
 
 -- ---------------------------------------------------------------- printing
@@ -543,7 +555,7 @@ def step (w : World) (line : String) : World × String :=
           else if op = "stall" then
             run (pipeSet w k fun x => { x with stall := true }) "ok"
           else if op = "release" then
-            run (wakeTasksOfPipe (pipeSet w k fun x => { x with stall := false }) k) "ok"
+            run (wakeClosingTasksOfPipe (pipeSet w k fun x => { x with stall := false }) k) "ok"
           else if op = "rsend" then
             match rest.head?.bind hexBytes? with
             | some bytes =>
